@@ -96,7 +96,7 @@ def run_prop(prop, tier='quick', seed=0, extra_obs=None, functions=None, extra_a
         # the repository's own tests do not pass on the instrumented modules: the tree (or the instrumenter) is broken; no verdict is trusted
         R.checker_errors.append(f"instrumented suite guard failed: {g['line']} {g['summary']}")
     lock = load_lock()
-    locked = set(lock.get('proved', []))
+    locked = set(lock.get('proved', [])) | (set(lock.get('proved_thorough', [])) if tier == 'thorough' else set())
     # ---- proved layer
     ms = msweep.sweep(tier)
     if not ms.get('canary_ok', False):
